@@ -268,6 +268,12 @@ TAG_SITES = [
     ("tablerow-offset", "{% tablerow i in v cols: a offset: b %}{{ i }}{% endtablerow %}", None, 2),
     ("for-continue", "{% for i in v limit: a %}x{% endfor %}{% for i in v offset: continue %}{{ i }}{% endfor %}", None, 1),
     ("forloop-vars", "{% for i in v %}{{ forloop.index }}{{ forloop.length }}{{ i }}{% endfor %}", None, 0),
+    # loop arguments written as LITERALS (quoted non-integers, floats): each hand-written copy converts them itself
+    ("for-offset-literal", "{% for i in v offset: 'abc' %}x{% else %}y{% endfor %}", None, 0),
+    ("for-limit-literal", "{% for i in v limit: '1.5' %}x{% endfor %}", None, 0),
+    ("for-literals", "{% for i in v limit: 'x' offset: 1.5 reversed %}x{% endfor %}{% for i in v limit: 2.5 offset: '' %}x{% endfor %}", None, 0),
+    ("tablerow-literals", "{% tablerow i in v cols: 'abc' offset: '1.5' limit: 'x' %}{{ i }}{% endtablerow %}", None, 0),
+    ("tablerow-literals2", "{% tablerow i in v cols: 1.5 limit: '' %}{{ i }}{% endtablerow %}{% tablerow i in v offset: 'abc' %}{{ i }}{% endtablerow %}", None, 0),
 ]
 
 MODES = ("STRICT", "WARN", "LAX")
